@@ -213,16 +213,35 @@ example : parsModel ["x = ( \\".toList, "  ( # comment".toList, "a".toList, ") #
 example : parsModel ["f((a))".toList] ⟨⟨0, 3, 0, 4⟩, (0, 6), (0, 0), .t, true, false, true⟩ = (⟨0, 2, 0, 5⟩, 1) := by decide
 example : parsModel ["f(i for i in j)".toList] ⟨⟨0, 1, 0, 15⟩, (0, 15), (0, 0), .f, true, true, true⟩ = (⟨0, 2, 0, 14⟩, -1) := by decide
 
-/-! ## by-location search = brute force over all nodes -/
+/-! ## by-location search = brute force over all nodes (repaired `find_contains_loc` / `find_loc`) -/
 
-/-- `find_contains_loc` (all three `allow_exact` values): on every geometrically well-formed walk list (children inside
-parents, later subtrees start after earlier ones end — `wfList`, evaluated by the driver on every real list) the single
-forward pass with its `continue` and its three early exits returns the LAST candidate of the start node's subtree in
-walk order (a candidate = contains the rectangle, does not end at/before its start, and is not an exact match when
-those are not allowed), or the start node itself when there is none. -/
-theorem findContains_bruteforce (nodes : List FNode) (q : Loc) (ae : AllowExact) (hwf : wfList nodes = true) :
-    (findContains nodes q ae).map (·.1) = bruteContains nodes q ae :=
-  Pfst.Scan.findContains_bruteforce nodes q ae hwf
+/-- Non-empty query rectangle. -/
+def nonEmpty (q : Loc) : Prop := q.ln < q.endLn ∨ (q.ln = q.endLn ∧ q.col < q.endCol)
+
+/-- **`find_contains_loc` on real walk lists, decorated definitions included** (all three `allow_exact` values): on
+every list that is well-formed in the sense `wfListD` (children inside parents, later subtrees after earlier ones,
+decorators before their definition — evaluated by the driver on every real list) and every non-empty rectangle, the pass
+with its `continue`, its early exits, the `'top'` exit and the decorator search returns what a brute-force scan over all
+nodes returns: the LAST candidate of the subtree in walk order (= the deepest node containing the rectangle), for
+`'top'` the FIRST candidate that matches exactly (= the highest of the nodes sharing the location), else the start
+node.  (For an EMPTY rectangle at the end of a decorator the statement is false of the code, see
+`Pfst.Scan.exDecoEmpty`.) -/
+theorem findContains_bruteforce (decos : List Nat) (nodes : List FNode) (q : Loc) (ae : AllowExact)
+    (hwf : wfListD decos nodes = true) (hq : nonEmpty q) :
+    (findContainsD decos nodes q ae).map (·.1) = bruteContains nodes q ae :=
+  Pfst.Scan.findContainsD_bruteforce decos nodes q ae hwf hq
+
+/-- The same on plainly well-formed lists (`wfList`: no node outside its parent), any rectangle, empty ones
+included. -/
+theorem findContains_bruteforce_wf (decos : List Nat) (nodes : List FNode) (q : Loc) (ae : AllowExact)
+    (hwf : wfList nodes = true) :
+    (findContainsD decos nodes q ae).map (·.1) = bruteContains nodes q ae :=
+  Pfst.Scan.findContainsD_bruteforce_wf decos nodes q ae hwf
+
+/-- The decorator search changes nothing where no node lies outside its parent. -/
+theorem findContains_decorators_inert (decos : List Nat) (nodes : List FNode) (q : Loc) (ae : AllowExact)
+    (hwf : wfList nodes = true) : findContainsD decos nodes q ae = findContains nodes q ae :=
+  Pfst.Scan.findContainsD_eq_of_wf decos nodes q ae hwf
 
 /-- "last candidate in walk order" is "deepest candidate": on a well-formed list the candidates form a chain of
 strictly increasing depth, so the brute-force pick is the unique deepest one. -/
@@ -232,6 +251,14 @@ theorem bruteContains_deepest (nodes : List FNode) (q : Loc) (ax : Bool) (r : FN
     ∀ c ∈ (subtree nodes).drop 1, candContains q ax c = true → c.depth ≤ r.depth ∧ (c.depth = r.depth → c = r) :=
   Pfst.Scan.bruteContains_deepest nodes q ax r hwf hlast
 
+/-- "first exact candidate in walk order" is "highest of the nodes sharing the location" (`'top'`). -/
+theorem bruteContains_top_highest (nodes : List FNode) (q : Loc) (r : FNode) (hwf : wfList nodes = true)
+    (hfirst : (((subtree nodes).drop 1).filter (candContains q true)).find? (fun f => exactQ f q) = some r) :
+    exactQ r q = true ∧ candContains q true r = true ∧ r ∈ (subtree nodes).drop 1 ∧
+    ∀ c ∈ (subtree nodes).drop 1, candContains q true c = true → exactQ c q = true →
+      r.depth ≤ c.depth ∧ (c.depth = r.depth → c = r) :=
+  Pfst.Scan.bruteContains_top_highest nodes q r hwf hfirst
+
 /-- `find_in_loc`: on a well-formed list the pass returns the FIRST node of the subtree (walk order) that lies inside
 the rectangle. -/
 theorem findIn_bruteforce (nodes : List FNode) (q : Loc) (hwf : wfList nodes = true) :
@@ -239,34 +266,51 @@ theorem findIn_bruteforce (nodes : List FNode) (q : Loc) (hwf : wfList nodes = t
   Pfst.Scan.findIn_bruteforce nodes q hwf
 
 /-- `find_loc` is the documented three-way composition of the two brute-force selections. -/
-theorem findLoc_bruteforce (nodes : List FNode) (q : Loc) (exactTop : Bool) (hwf : wfList nodes = true) :
-    findLoc nodes q exactTop = bruteLoc nodes q exactTop :=
-  Pfst.Scan.findLoc_bruteforce nodes q exactTop hwf
+theorem findLoc_bruteforce (decos : List Nat) (nodes : List FNode) (q : Loc) (exactTop : Bool)
+    (hwf : wfList nodes = true) : findLoc decos nodes q exactTop = bruteLoc nodes q exactTop :=
+  Pfst.Scan.findLoc_bruteforce decos nodes q exactTop hwf
 
-/-- The well-formedness hypothesis is needed, and real trees violate it: a decorated definition's `loc` starts at
-`def`, after its decorator children.  On `@deco\ndef f(): pass` the pass answers the Module for the rectangle of the
-decorator name while the brute force answers the Name (finding C06-F1). -/
-theorem findContains_false_on_decorated :
-    (findContains exDeco ⟨0, 1, 0, 5⟩ .yes).map (·.1) = some ⟨0, 0, 0, 1, 13, 0⟩
+/- Full statement wanted: `findLoc decos nodes q t = bruteLoc nodes q t` under `wfListD`.  Proved: the contains-part is
+the brute force; the inside-part is still the pass `findIn` (there is no brute-force theorem for `find_in_loc` on
+lists with decorated definitions: the walk yields a definition before its decorators, so "first in walk order" and
+"first in the text" differ there; the sweep compares with brute force on every real list). -/
+/-- `find_loc` on lists with decorated definitions. -/
+theorem findLoc_decorated_partial (decos : List Nat) (nodes : List FNode) (q : Loc) (exactTop : Bool)
+    (hwf : wfListD decos nodes = true) (hq : nonEmpty q) :
+    findLoc decos nodes q exactTop =
+      match bruteContainsT nodes q (if exactTop then .top else .yes) with
+      | none => findIn nodes q
+      | some (f, ftail) =>
+        if f.col == q.col && f.endCol == q.endCol && f.ln == q.ln && f.endLn == q.endLn then some f
+        else match findIn (f :: ftail) q with
+          | some g => some g
+          | none => some f :=
+  Pfst.Scan.findLoc_decorated_partial decos nodes q exactTop hwf hq
+
+/-- Was finding C06-F1, now repaired: on `@deco\ndef f(): pass` (a list that is NOT plainly well-formed — the
+definition's span starts after its decorator child — but is `wfListD`) the pass reaches the decorator name, like the
+brute force, and `find_loc` answers it for a rectangle strictly inside it. -/
+theorem findContains_decorated_witness :
+    wfList exDeco = false ∧ wfListD [2] exDeco = true
+    ∧ (findContainsD [2] exDeco ⟨0, 1, 0, 5⟩ .yes).map (·.1) = some ⟨2, 0, 1, 0, 5, 2⟩
     ∧ bruteContains exDeco ⟨0, 1, 0, 5⟩ .yes = some ⟨2, 0, 1, 0, 5, 2⟩
-    ∧ (findContains exDeco ⟨0, 1, 0, 5⟩ .yes).map (·.1) ≠ bruteContains exDeco ⟨0, 1, 0, 5⟩ .yes :=
-  Pfst.Scan.findContains_needs_wf
+    ∧ findLoc [2] exDeco ⟨0, 2, 0, 4⟩ false = some ⟨2, 0, 1, 0, 5, 2⟩ :=
+  Pfst.Scan.findContains_decorated_witness
 
-/-- `'var\n'`: Module 0,0..1,0 > Expr 0,0..0,3 > Name 0,0..0,3 -/
-def exVar : List FNode := [⟨0, 0, 0, 1, 0, 0⟩, ⟨1, 0, 0, 0, 3, 1⟩, ⟨2, 0, 0, 0, 3, 2⟩]
-
-/-- `allow_exact='top'` / `exact_top=True` are honoured only when the START node is the exact match: below it the pass
-descends to the lowest exact match.  On `'var\n'` (a well-formed list) the documented answer for the rectangle of
-`var` is the `Expr`, the pass answers the `Name` (finding C06-F2). -/
-theorem findLoc_exactTop_false :
+/-- Was finding C06-F2, now repaired: on `'var\n'` (Module 0,0..1,0 > Expr 0,0..0,3 > Name 0,0..0,3) `exact_top=True`
+/ `'top'` answer the `Expr` (highest of the nodes sharing the location), `exact_top=False` the `Name`. -/
+theorem findLoc_exactTop_witness :
     wfList exVar = true
-    ∧ findLoc exVar ⟨0, 0, 0, 3⟩ true = some ⟨2, 0, 0, 0, 3, 2⟩
-    ∧ (findContains exVar ⟨0, 0, 0, 3⟩ .top).map (·.1) = some ⟨2, 0, 0, 0, 3, 2⟩
-    ∧ (exVar.filter (fun f => exactQ f ⟨0, 0, 0, 3⟩)).head? = some ⟨1, 0, 0, 0, 3, 1⟩ := by
-  decide
+    ∧ findLoc [] exVar ⟨0, 0, 0, 3⟩ true = some ⟨1, 0, 0, 0, 3, 1⟩
+    ∧ findLoc [] exVar ⟨0, 0, 0, 3⟩ false = some ⟨2, 0, 0, 0, 3, 2⟩
+    ∧ (findContainsD [] exVar ⟨0, 0, 0, 3⟩ .top).map (·.1) = some ⟨1, 0, 0, 0, 3, 1⟩
+    ∧ bruteContains exVar ⟨0, 0, 0, 3⟩ .top = some ⟨1, 0, 0, 0, 3, 1⟩ :=
+  Pfst.Scan.findLoc_exactTop_witness
 
 example : wfList exNodes = true := by decide
-example : findLoc exNodes ⟨0, 4, 0, 5⟩ false = some ⟨5, 0, 4, 0, 5, 3⟩ := by decide
-example : wfList exDeco = false := by decide
+example : findLoc [] exNodes ⟨0, 4, 0, 5⟩ false = some ⟨5, 0, 4, 0, 5, 3⟩ := by decide
+example : nonEmpty ⟨0, 1, 0, 5⟩ := by unfold nonEmpty; decide
+example : (findContainsD [2] exDeco ⟨0, 1, 0, 5⟩ .yes).map (·.1) = bruteContains exDeco ⟨0, 1, 0, 5⟩ .yes :=
+  findContains_bruteforce [2] exDeco ⟨0, 1, 0, 5⟩ .yes (by decide) (by unfold nonEmpty; decide)
 
 end Pfst.C06
